@@ -15,6 +15,9 @@ Same line protocol as the Lean driver m_c19 (lean/Drivers/C19.lean): one request
                                 element type is built over the declaration's own base-type object, all others over fresh
                                 (structurally equal) objects
   size hiindex loindex hibound lobound unique
+  fits K lo hi K' lo' hi'       may a `K [lo:hi] OF REAL` object be stored where `K' [lo':hi'] OF REAL` is the declared element type?
+  bi F | biv F t v              the built-in function F of Builtin.py (SIZEOF HIINDEX LOINDEX HIBOUND LOBOUND VALUE_UNIQUE)
+                                applied to the current container | to a simple value
 replies
   ok | val t v | unset | refused <ExceptionClass> | int n | indet | logical T|F|U | no-aggregate | bad-op
 
@@ -31,6 +34,8 @@ from stepcode.SimpleDataTypes import INTEGER, STRING, REAL, LOGICAL, Unknown  # 
 from stepcode import AggregationDataTypes as A                               # noqa: E402
 from stepcode.BaseType import Aggregate as BaseTypeAggregate                 # noqa: E402
 
+from stepcode import Builtin                                                 # noqa: E402
+BUILTIN = ("SIZEOF", "HIINDEX", "LOINDEX", "HIBOUND", "LOBOUND", "VALUE_UNIQUE")
 BASES = [INTEGER, STRING, REAL]
 BASE_NAMES = ["INTEGER", "STRING", "REAL"]
 SCOPE = sys.modules[__name__]
@@ -147,8 +152,34 @@ def handle(agg, w):
             return None, refused(e)
         agg._verif_declared = (base, None if byname else bt)
         return agg, "ok"
+    if op == "fits" and len(w) == 7:
+        kinds = {"ARRAY": A.ARRAY, "LIST": A.LIST, "BAG": A.BAG, "SET": A.SET}
+        hi = lambda x: None if x == "?" else int(x)
+        try:
+            declared = kinds[w[4]](int(w[5]), hi(w[6]), REAL)
+            element = kinds[w[1]](int(w[2]), hi(w[3]), REAL)
+        except Exception as e:
+            return agg, "bad-op"
+        outer = A.ARRAY(1, 1, declared, OPTIONAL=True)
+        try:
+            outer[1] = element
+            return agg, "ok"
+        except Exception as e:
+            return agg, refused(e)
+    if op == "biv" and len(w) == 4 and w[1] in BUILTIN:
+        try:
+            r = getattr(Builtin, w[1])(mk_val(w[2], int(w[3])))
+            return agg, "notrefused %r" % (r,)
+        except Exception as e:
+            return agg, refused(e)
     if agg is None:
         return agg, "no-aggregate"
+    if op == "bi" and len(w) == 2 and w[1] in BUILTIN:
+        try:
+            r = getattr(Builtin, w[1])(agg)
+        except Exception as e:
+            return agg, refused(e)
+        return agg, (show_logical(r) if w[1] == "VALUE_UNIQUE" else show_int(r))
     indexed = isinstance(agg, (A.ARRAY, A.LIST))
     try:
         if op == "set" and len(w) == 4 and indexed:
